@@ -74,7 +74,7 @@ def gen_world(rng, prop, long_dim=False):
     if len(dims) >= 1 and rng.chance(0.35) and not long_dim:
         wide = rng.randint(0, len(dims) - 1)
     header = rng.weighted([("names", 4), ("letters", 2), ("mixed", 2), ("items", 2)])
-    layout = {"wide": wide, "index": rng.chance(0.4), "header": header,
+    layout = {"wide": wide, "index": rng.weighted([(False, 6), (True, 3), ("unnamed", 2)]), "header": header,
               "value_name": rng.choice(["value", "val", "Amount", "x"]), "omit_single": rng.chance(0.4),
               "producer": rng.choice(["to_df", "own"]), "sparse": bool(zeros) and rng.chance(0.6)}
     medium = rng.weighted([("df", 5), ("csv", 3), ("csv_reader", 2), ("excel_reader", 1)])
@@ -222,12 +222,13 @@ def style_headers(frame, world, dims, rng_bits):
 
 
 def to_dataframe(frame, index, layout=None, dims=None):
-    df = _to_dataframe(frame, index)
+    df, in_index = _to_dataframe(frame, index)
+    plain = not in_index
     if layout is None or dims is None:
         return df
     # label representation: what a typed dimension must convert back
     byname = {d.name: d for d in dims}
-    if not isinstance(df.index, pd.MultiIndex) and df.index.name is None:
+    if plain:  # no dimension went into the index
         for c in frame.cols:
             if c["role"] != "dim" or layout.get("label_repr", {}).get(c["dim"]) != "converted":
                 continue
@@ -270,12 +271,24 @@ def _to_dataframe(frame, index):
     df = pd.DataFrame(data)
     df.columns = headers
     dimcols = [c["header"] for c in frame.cols if c["role"] == "dim"]
+    ncols = len(df.columns)
+    df = _index_dims(df, frame, index, dimcols)
+    return df, len(df.columns) != ncols
+
+
+def _index_dims(df, frame, index, dimcols):
     if index and dimcols and all(c.get("ident") == "name" for c in frame.cols if c["role"] == "dim"):
         df = df.set_index(dimcols)
     elif index and len(dimcols) == 1 and not df[dimcols[0]].isna().any():
         # identified only through its items, held in a single-level index that carries a neutral name
         df = df.set_index(dimcols[0])
-        df.index.name = "key"
+        # a neutral name - or none at all where pandas' own row numbers cannot be meant (text labels)
+        df.index.name = None if (index == "unnamed" and df.index.dtype == object) else "key"
+    elif index == "unnamed" and len(dimcols) > 1 and not any(c.get("ident") == "name" for c in frame.cols if c["role"] == "dim") \
+            and not df[dimcols].isna().any().any():
+        # several dimensions identified only through their items, held in index levels without names
+        df = df.set_index(dimcols)
+        df.index.names = [None] * len(dimcols)
     return df
 
 
@@ -862,7 +875,7 @@ class IoChan(Engine):
         intr = next((f for f in medium_faults if f["f"] == "interrupt"), None)
         if medium in ("csv", "csv_reader"):
             path = os.path.join(tmp, "table.csv")
-            df.to_csv(path, index=isinstance(df.index, pd.MultiIndex) or df.index.name is not None)
+            df.to_csv(path, index=isinstance(df.index, pd.MultiIndex) or df.index.name is not None or df.index.dtype == object)
             if trunc:
                 with open(path, "rb") as fh:
                     blob = fh.read()
@@ -887,7 +900,7 @@ class IoChan(Engine):
         elif medium == "excel_reader":
             path = os.path.join(tmp, "table.xlsx")
             # "contiguous data starting in A1": no merged index cells
-            dfx = df.reset_index() if (isinstance(df.index, pd.MultiIndex) or df.index.name is not None) else df
+            dfx = df.reset_index() if (isinstance(df.index, pd.MultiIndex) or df.index.name is not None or df.index.dtype == object) else df
             dfx.to_excel(path, sheet_name="data", index=False)
         import pandas.io.common as pic
         real_open = open
